@@ -793,8 +793,18 @@ def nanpercentile(a, q, axis=None, out=None, *args, **kwargs):
 
 
 @implements(np.nanquantile)
-def nanquantile(a, *args, **kwargs):
-    return np.nanquantile._implementation(np.asarray(a), *args, **kwargs) * a.units
+def nanquantile(a, q, axis=None, out=None, *args, **kwargs):
+    res = np.nanquantile._implementation(
+        np.asarray(a),
+        q,
+        axis,
+        None if out is None else np.asarray(out),
+        *args,
+        **kwargs,
+    )
+    if getattr(out, "units", None) is not None:
+        out.units = a.units
+    return res * a.units
 
 
 @implements(np.linalg.det)
